@@ -200,8 +200,15 @@ def dfs_callbacks_vcs() -> List[core.VC]:
                 lep = z3.Int("last_ev_parent")
                 csnode = pyvc.Record("CallStackNode", {"parent": z3.Int("cs_parent"), "depth": z3.Int("cs_depth")})
                 pre = [depth == 0] if depth0 else ([depth >= 1] if which == "enter_func" else [depth >= 1])
+                LCA = z3.Function("lowest_common_enclosing_event", z3.IntSort(), z3.IntSort(), z3.IntSort())
+
+                @pyvc.intrinsic
+                def common_parent(exq, pc, env_, args, kwargs):
+                    # the nested helper of the same function; its own contract (lowest event enclosing both) is proved in C10.common_parent
+                    return LCA(to_z3(args[0]), to_z3(args[1]))
+
                 env = {"self": pyvc.Record("CPGraph", {}), "ev_id": z3.Int("ev_id"), "csnode": csnode, "last_node": last if has_last else None,
-                       "last_highlevel_op": hl, "op_depth": depth, "last_ev_parent": lep, "link_operators": True}
+                       "last_highlevel_op": hl, "op_depth": depth, "last_ev_parent": lep, "link_operators": True, "common_parent": common_parent}
                 outs = ex.exec_block(g.body, pre, env)
                 tag = f"{name}.{which}.{'with' if has_last else 'without'}_last_node.{'top_level' if depth0 else 'nested'}"
                 finals = [o for o in outs if o.kind in ("fall", "ret")]
@@ -229,10 +236,11 @@ def dfs_callbacks_vcs() -> List[core.VC]:
                 ok_attr = len(attrs) == (1 if has_last else 0)
                 vcs.append(core.VC(f"{tag}.span_edge_is_attributed", [], z3.BoolVal(ok_attr), "vc", fq, {}, note="every span edge added here is handed to _attribute_edge (what it is attributed to is C10)"))
                 if which == "enter_func" and has_last and attrs:
-                    # C10 (case 4): an end -> start edge is attributed to the parent of the event being entered
-                    vcs.append(core.VC(f"{tag}.end_to_start_edge_attributed_to_parent_of_entered_event", pre + [z3.Not(last.fields["is_start"])],
-                                       to_z3(attrs[0][1]) == csnode.fields["parent"], "vc", fq, {},
-                                       note="the gap between a finished child and the next child lies inside the parent of the child being entered"))
+                    # C10 (case 4): an end -> start edge is attributed to the lowest event enclosing the finished event and the entered one
+                    vcs.append(core.VC(f"{tag}.end_to_start_edge_attributed_to_lowest_common_enclosing_event", pre + [z3.Not(last.fields["is_start"])],
+                                       to_z3(attrs[0][1]) == LCA(last.fields["ev_idx"], z3.Int("ev_id")), "vc", fq, {},
+                                       note="the gap between a finished event and the next one lies inside every event enclosing both; the direct parent of either may be an "
+                                            "annotation around that one only (D17, D24)"))
                 for o in finals:
                     e2 = o.env
                     hy = [to_z3(c) for c in o.pc]
@@ -480,6 +488,14 @@ def _case(arg) -> Dict[str, Any]:
                             return {"n_checks": 1, "fails": [{"what": "zero_weight_window", "known": kf[0]}], "nontrivial": True}
                         fails.append({"what": "zero_weight_window", "input": inp, "observed": "AssertionError in critical_path()", "expected": "analysis succeeds"})
                     return {"n_checks": 1, "fails": fails, "nontrivial": True}
+                if seed % 4 == 2 and len(arg) <= 2:
+                    # a call history on ONE analysis object: another window is analysed first; the request checked below must not depend on it
+                    prior = 1 if inst == 0 else 0
+                    inp["analysed_before_on_the_same_object"] = prior
+                    try:
+                        rt.lib(fails, "critical_path_analysis(prior request)", inp, ta.critical_path_analysis, rank=0, annotation="ProfilerStep", instance_id=prior, _allow=(AssertionError,))
+                    except AssertionError:
+                        pass  # the prior window may be of the known class D16; irrelevant for the request under test
                 g, success = rt.lib(fails, "critical_path_analysis", inp, ta.critical_path_analysis, rank=0, annotation="ProfilerStep", instance_id=inst)
                 n = check_graph(seed, evs, ta, g, success, inst, zero_w, fails, inp)
             except rt.LibFailure:
